@@ -983,7 +983,7 @@ def _analyze_zipfile_for_import(zipfile, project, schema):
     for name in sorted(dirs):
         cont = False
         for skip in skip_subdirs:
-            if name.startswith(skip):
+            if name == skip or name.startswith(skip + "/"):
                 cont = True
                 break
         if cont:
@@ -1004,7 +1004,7 @@ def _analyze_zipfile_for_import(zipfile, project, schema):
         )
 
     for src, job in mappings.items():
-        _names = [name for name in names if name.startswith(src)]
+        _names = [name for name in names if name.startswith(src + "/")]
         copy_executor = _CopyFromZipFileExecutor(zipfile, src, job, _names)
         yield src, copy_executor
 
